@@ -350,6 +350,19 @@ def h18_reject(x: int, b: bool, s: str) -> bool:
         sec = {"overrides": [{"module": "a", BOOL_OFF.name: x}]}
     elif what == "wrong_type_in_extended":
         sec = {"extend_config": "f1"}
+    elif what == "int_gets_bool":
+        sec = {INT_OPT.name: b}
+    elif what == "int_gets_bool_in_override":
+        sec = {"overrides": [{"module": "a", INT_OPT.name: b}]}
+    elif what == "disable_all_gets_int":
+        sec = {"disable_all": x}
+    elif what == "disable_all_gets_str":
+        sec = {"disable_all": s}
+    elif what == "disable_all_gets_int_in_override":
+        sec = {"overrides": [{"module": "a", "disable_all": x}]}
+    elif what == "extend_in_override":
+        # an override for module a must not pull a whole file into every module's settings
+        sec = {"overrides": [{"module": "a", "extend_config": "f1"}]}
     else:
         raise AssertionError(what)
     f1 = {"extend_config": "f0"} if what == "recursive_cycle" else (
@@ -411,6 +424,8 @@ REJECTS = [
     "nested_overrides", "override_without_module", "override_module_not_str", "overrides_not_list",
     "override_not_dict", "toplevel_module", "extend_not_str", "extend_missing_file", "recursive_self",
     "recursive_cycle", "unknown_key_in_override", "wrong_type_in_override", "wrong_type_in_extended",
+    "int_gets_bool", "int_gets_bool_in_override", "disable_all_gets_int", "disable_all_gets_str",
+    "disable_all_gets_int_in_override", "extend_in_override",
 ]
 
 
